@@ -10,7 +10,7 @@ old block each new block is made of + the NumPy kernel applied to that block", a
 
 Python                                                                       Lean
 ------                                                                       ----
-transpose: blockwise(np.transpose, axes, a, range(ndim), axes=axes)          `Grid.transpose`
+transpose: blockwise(np.transpose, axes, a, range(ndim), axes=axes)          `Grid.transpose` (2-d), `NArr.transpose` (n-d, any permutation)
 flip: m[::-1] along the axis (blocks in reverse order, each reversed)        `Grid.flip0`, `Grid.flip1`, `flipBlocks` (1-d)
 rot90: k=1 transpose(flip(m, axes[1])), k=2 flip(flip(m, 0), 1), k=3 flip(transpose(m), axes[1])   `Grid.rot90`
 tril: where(tri(N, M, k, chunks=m.chunks[-2:]), m, 0); tri = arange(N)[:, None] >= arange(-k, M - k)   `Grid.tril`, `Grid.triu`
@@ -160,5 +160,53 @@ def padConstBlocks {α} (chunks : List Nat) (blocks : List (List α)) (l r : Nat
 def squeezeRow {α} (g : Grid α) : Vec α := ⟨g.cc, fun j s => g.blk 0 j 0 s⟩
 /-- `expand_dims(x, 0)` of a 1-d array = `x.reshape((1, n))`: chunks `((1,), cs)`, block `(0, j)` = block `j` reshaped -/
 def expandRow {α} (v : Vec α) : Grid α := ⟨[1], v.cs, fun _ j _ s => v.blk j s⟩
+
+/-! ### n-d: transpose with any permutation of the axes -/
+
+/-- an n-d chunked array: one chunk tuple per axis and a block table (block index, index inside the block) -/
+structure NArr (α : Type) where
+  chunks : List (List Nat)
+  blk : List Nat → List Nat → α
+
+/-- per axis: the block that holds the position and the offset inside it -/
+def locate : List (List Nat) → List Nat → Option (List Nat × List Nat)
+  | [], [] => some ([], [])
+  | c :: cs, p :: ps =>
+    match blockOf c p, locate cs ps with
+    | some (b, o), some (bs, os) => some (b :: bs, o :: os)
+    | _, _ => none
+  | _, _ => none
+
+def NArr.read {α} (a : NArr α) (idx : List Nat) : Option α :=
+  (locate a.chunks idx).map (fun bo => a.blk bo.1 bo.2)
+
+/-- `[xs[a] for a in axes]` -/
+def permuteBy {β} (d : β) (axes : List Nat) (xs : List β) : List β := axes.map (fun a => xs.getD a d)
+
+/-- the index `X'` with `X'[axes[k]] = X[k]` -/
+def unpermuteBy (axes : List Nat) (X : List Nat) : List Nat :=
+  (List.range axes.length).map (fun a => X.getD (axes.idxOf a) 0)
+
+/-- `blockwise(np.transpose, axes, a, range(ndim), axes=axes)`: chunks permuted, block `B` of the result is
+    `np.transpose(block unperm(B), axes)` -/
+def NArr.transpose {α} (axes : List Nat) (a : NArr α) : NArr α :=
+  ⟨permuteBy [] axes a.chunks, fun B O => a.blk (unpermuteBy axes B) (unpermuteBy axes O)⟩
+
+/-- `axes` is a permutation of `0 .. n-1` -/
+def IsPerm (axes : List Nat) : Prop := axes.Nodup ∧ ∀ a, a ∈ axes ↔ a < axes.length
+
+/-- … executable -/
+def isPermB (axes : List Nat) : Bool :=
+  decide axes.Nodup && axes.all (fun a => decide (a < axes.length)) && (List.range axes.length).all (fun a => axes.contains a)
+
+/-- the array `A` (a function of the index vector) cut into blocks -/
+def NArr.ofFn {α} (chunks : List (List Nat)) (A : List Nat → α) : NArr α :=
+  ⟨chunks, fun bs os => A ((List.range chunks.length).map (fun k => blockStart (chunks.getD k []) (bs.getD k 0) + os.getD k 0))⟩
+
+
+/-- all index vectors below the given extents, in C order -/
+def cartesian : List Nat → List (List Nat)
+  | [] => [[]]
+  | n :: ns => (List.range n).flatMap (fun i => (cartesian ns).map (fun t => i :: t))
 
 end Dask.Structural
